@@ -10,7 +10,7 @@ From TLV Require Import Base.Shape Base.PyList Base.Tensor Base.Ops Model.Base M
      Proofs.SvdDecompTuckerErr Proofs.SvdDecompTuckerBound Proofs.SvdDecompHosvdBound
      Proofs.SvdDecompPartial Proofs.SvdDecompTuckerGen Proofs.SvdDecompRingErr Proofs.SvdDecompTTMErr
      Proofs.SvdDecompValidate Proofs.SvdDecompRingPartial Proofs.SvdDecompRingErrR
-     Proofs.SvdDecompRankCond Model.SvdDecompSymeig Proofs.SvdDecompSymeig Proofs.SvdDecompSymeigRing Proofs.SvdDecompSymeigEig Model.SvdDecompRand Proofs.SvdDecompRand Proofs.SvdDecompEckartYoung Proofs.SvdDecompTTUpper Proofs.SvdDecompMethodsTucker Proofs.SvdDecompTTRank Proofs.SvdDecompTTMRank Proofs.SvdDecompTuckerRank Proofs.SvdDecompHooiBound Proofs.SvdDecompRingRank Proofs.SvdDecompTuckerSemi Proofs.SvdDecompTuckerSemiEx Proofs.SvdDecompSymeigWide Proofs.SvdDecompRingUpper Proofs.SvdDecompRingCuts.
+     Proofs.SvdDecompRankCond Model.SvdDecompSymeig Proofs.SvdDecompSymeig Proofs.SvdDecompSymeigRing Proofs.SvdDecompSymeigEig Model.SvdDecompRand Proofs.SvdDecompRand Proofs.SvdDecompEckartYoung Proofs.SvdDecompTTUpper Proofs.SvdDecompMethodsTucker Proofs.SvdDecompTTRank Proofs.SvdDecompTTMRank Proofs.SvdDecompTuckerRank Proofs.SvdDecompHooiBound Proofs.SvdDecompRingRank Proofs.SvdDecompTuckerSemi Proofs.SvdDecompTuckerSemiEx Proofs.SvdDecompSymeigWide Proofs.SvdDecompRingUpper Proofs.SvdDecompRingCuts Proofs.SvdDecompRingRanks.
 Import ListNotations.
 
 (* exactness of one TT-SVD step, over every commutative ring: truncating + sign-flipping a
@@ -1338,3 +1338,23 @@ Theorem C09_tr_full_requestb_sound : forall (X : tensor R) (rank : rank_spec) (m
   tr_full_requestb X rank mode = true -> tr_full_request X rank mode.
 Proof. exact tr_full_requestb_sound. Qed.
 Print Assumptions C09_tr_full_requestb_sound.
+
+(* tensor_ring respects the requested ranks (any carrier, any oracle, every start mode; no contract): with the returned cores and the
+   request rotated to the start mode, the first core has exactly the bonds (rank[mode], rank[mode+1]) - whose product is at most the
+   smaller dimension of the first unfolding, otherwise the run is Err - and every later bond is at most its request
+   (the hypothesis is satisfiable: C09_nonvacuous_tr is a run returning Ok) *)
+Theorem C09_tensor_ring_ranks_respected : forall (F : Type) (Op : fops F) (svd : nat -> tensor F -> svdans)
+  (X : tensor F) (rank : rank_spec) (mode : nat) (cores : list (tensor F)),
+  tensor_ring Op svd X rank mode = Ok cores ->
+  match validate_tr_rank (ndim X) rank with
+  | Ok rk0 =>
+    let n := ndim X in
+    let rk := if Nat.eqb mode 0 then rk0 else tr_rotate_rank n mode rk0 in
+    let shp := if Nat.eqb mode 0 then shape X else permute 0 (rotate mode (seq 0 n)) (shape X) in
+    let fs := if Nat.eqb mode 0 then cores else rotate mode cores in
+    exists G cs, fs = G :: cs /\ shape G = [nth 0 rk 0; hd 0 shp; nth 1 rk 0] /\ ranks_respected cs (skipn 2 rk) /\
+                 nth 0 rk 0 * nth 1 rk 0 <= Nat.min (hd 0 shp) (prod (tl shp))
+  | Err => False
+  end.
+Proof. exact @tensor_ring_ranks_respected. Qed.
+Print Assumptions C09_tensor_ring_ranks_respected.
